@@ -29,6 +29,14 @@ CLAIMS = {
          "elbo = assess(merge(constraint, q choices)[0], *target_args)[0] + q score from one simulate; update = params + lr·grad_estimate(params) carried and emitted; final_params = final carry; families' covariance constructions and estimator selection; merge precedence."),
  "C18": ("symbolic summary of run_chain: scan body roles, one retained-index term shared by traces and accepts, provenance of accepts from the same state-wrapped run",
          "Post-kernel trace carried and emitted, indices arange(burn_in, n_steps, thinning) applied to every trace leaf and to the accepts collected by the same run, acceptance_rate/n_steps from the retained accepts, multi-chain path = modular_vmap over replicated initial traces with the same n_steps/burn_in/thinning and n_chains=const(1)."),
+ "C06": ("ownership / escape / who-may-touch rules over pjax.py; guard rule on Seed's sampling branch; dependence rule on the staged-sampler cache key; sibling comparison of interpreter dispatch sets",
+         "The process-global key counter is read/written only in KeylessWrapper.__call__, whose instances flow only into the staged-function slot; Seed's sampling branch never re-binds the primitive and draws from the flat keyful sampler with a fresh sub-key; Seed(key) is call-local; _fake_key is only a staging argument; the flat-sampler memo key; Seed and ModularVmap special-case the same primitive set; fall-through exhaustiveness."),
+ "C07": ("PRNG-key linearity analysis of the Seed interpreter; symbolic shape rule for lane randomness; sample_shape threading roles",
+         "In each of the 3 key-consuming branches the interpreter key is replaced by split(key)[0] and the sub-key is consumed exactly once; scan iterations use fold_in(carried key, scanned index) and return the carried key unchanged; cond branches are all seeded with one fresh sub-key; under modular_vmap the re-bound sample shape is extended by axis_size whenever no operand carries the batch axis and the output axis is 0 then; sample_shape reaches every keyful sampler."),
+ "C08": ("writer/reader agreement rule for the injected dummy operand; role rule for the log-density batch rule; symbolic term comparison of the Vmap combinator; declared-union narrowing; first-leaf guard; dependence rule on batch-axis positions",
+         "1 dummy operand injected by ModularVmap and 1 stripped by each of 3 consumers; (dummy, args) paired with in_axes (0, in_axes); density vmapped with the in-axes tree rebuilt from this site's batch axes; Vmap's in_axes prefix table and sum-over-lanes for all five methods; Vmap.in_axes narrowing; axis-size inference on leafless arguments; batch-axis positions in the sample batch rule."),
+ "C14": ("who-may-bind and must-carry rules for the sampling primitives; guard-shape rule for the lowering rule and the sample batch rule; single-writer rule for the global flags; exhaustiveness of Seed's fall-through",
+         "sample_p/adev_sample_p are bound only in create_sample_primitive and always with lowering_exception/lowering_warning; the lowering rule raises the dedicated exception before lowering unless the warning flag is set; both flags are module constants with no other writer; PPPrimitive forwards lowering with the hidden params; plain jax.vmap raises; ModularVmap's re-bind forwards the original params."),
 }
 checks, na = [], []
 for p in props:
